@@ -2917,3 +2917,117 @@ def kmer_helper_lemmas(F, rep, rule="L-helper"):
         # (a helper that matches no known operation stays unknown: tables that meet it are INCONCLUSIVE)
     F.helper_summary = summary
     return summary
+
+
+def kmer_hash_lemmas(F, rep, rule="L-hash"):
+    """Hash of every k-mer type, whether derived or written by hand: what is fed to the hasher must determine the k-mer (and be determined by
+    its used lanes only).  `hash` is interpreted on a symbolic k-mer with a recording hasher; the recorded bits, as XORs of the k-mer's
+    bits, must have full rank over GF(2) — otherwise two different k-mers feed every hasher, under every seed, the same data (a perfect
+    hash can never separate them); a witness pair is computed from the kernel."""
+    from . import gf2
+    from .absint import tags_of
+    roots = [r for r in F.d.get("roots", []) if r.get("trait") == "Hash" and r.get("self") in [k["ty"] for k in F.kmer_types]]
+    if not roots:
+        rep.inconclusive(rule, "Hash", "no monomorphic instance of Hash::hash for the k-mer types in the driver's facts")
+        return
+
+    class H(Harness):
+        def __init__(self):
+            self.fed = []
+            self.bad = []
+
+        def on_call(self, it, fn, args, dest_ty, term, caller):
+            path = fn.get("path", "")
+            name = path.split("::")[-1]
+            tr = fn.get("trait", "") or ""
+            if tr.endswith("hash::Hash") and name == "hash" and len(args) == 2 and it.find_body(fn) is None:
+                # the library's Hash of a primitive / PhantomData / tuple / array: feeds the value itself
+                v = args[0]
+                while isinstance(v, Ref):
+                    v = it.read(v.cell, v.path)
+
+                def feed(x):
+                    if isinstance(x, Int):
+                        self.fed.append(list(x.getbits()))
+                    elif isinstance(x, (Tup, Arr, VecV)):
+                        for e in (x.fields if isinstance(x, Tup) else x.elems):
+                            feed(e)
+                    elif isinstance(x, Adt) and x.name.endswith("PhantomData"):
+                        pass
+                    else:
+                        self.bad.append("library Hash of %r" % (x,))
+                feed(v)
+                return Tup([])
+            if tr.endswith("hash::Hasher") and name.startswith("write") and len(args) == 2:
+                v = args[1]
+                if isinstance(v, Int):
+                    self.fed.append(list(v.getbits()))
+                    return Tup([])
+                if isinstance(v, Ref):
+                    from .models import seq_of
+                    sq = seq_of(it, v)
+                    if sq is not None:
+                        for e in sq[0].elems[sq[1]:sq[1] + sq[2]]:
+                            self.fed.append(list(e.getbits()) if isinstance(e, Int) else [TOP])
+                        return Tup([])
+                self.bad.append("hasher fed with %r" % (v,))
+                return Tup([])
+            return NotImplemented
+    for r in roots:
+        kty, key = r["self"], r["key"]
+        if key not in F.insts:
+            continue
+        try:
+            kt = KType(F, kty)
+            kt.K = kmer_k(F, kt)
+        except Exception:
+            continue
+        K = kt.K
+        okey = "%s/Hash" % kty
+
+        def f(kt=kt, K=K, key=key, okey=okey, kty=kty):
+            h = H()
+            run_inst(F, key, [Ref(Cell(kt.sym("s"), "self")), Ref(Cell(Opaque("std::hash::DefaultHasher", {"hasher"}), "state"))], h)
+            rep.evaluations += 1
+            bits = [b for word in h.fed for b in word]
+            if h.bad or not bits or any(b is TOP for b in bits):
+                rep.inconclusive(rule, okey, "Hash::hash: %s" % (h.bad[0] if h.bad else "the data fed to the hasher could not be read"))
+                return
+            used = set()
+            S_ = in_bits("s", 2 * K, kt.W)
+            for j in range(K):
+                hi, lo = kt.lane_bits(j)
+                for t in (S_[hi], S_[lo]):
+                    used |= set(next(iter(t))) if t not in (ZERO, ONE) else set()
+            sys_ = gf2.System()
+            for b in bits:
+                e = gf2.term_eq(b)
+                if e is None:
+                    rep.inconclusive(rule, okey, "Hash::hash feeds a non-linear function of the k-mer's bits to the hasher; injectivity not decided")
+                    return
+                if e[0] - used:
+                    rep.violated(rule, okey, "Hash::hash of %s feeds the hasher a bit that depends on storage outside the %d used lanes" % (kty, K))
+                    return
+                if e[0]:
+                    sys_.add((e[0], 0))
+            rank = len(sys_.rows)
+            if rank == len(used):
+                rep.holds(rule, okey, "the %d bits fed to the hasher determine all %d used bits of the k-mer (rank %d over GF(2)): equal hash input ⇔ same string" % (
+                    len(bits), len(used), rank))
+                return
+            # a non-zero kernel vector: a difference d such that k and k^d feed the same data
+            free = sorted(used - set(sys_.rows))
+            d = sys_.solution({free[0]: 1})
+            d[free[0]] = 1
+
+            def letters(sol):
+                out_ = ""
+                for j in range(K):
+                    hi, lo = kt.lane_bits(j)
+                    g = lambda t: sol.get(next(iter(next(iter(t)))), 0) if t not in (ZERO, ONE) else 0
+                    out_ += "ACGT"[g(S_[lo]) | (g(S_[hi]) << 1)]
+                return out_
+            rep.violated(rule, okey, "Hash::hash of %s feeds the hasher %d bits of rank %d for %d bits of k-mer: different k-mers give every hasher the same "
+                         "input whatever the seed — e.g. %s and %s — so hash-equal no longer means same string and a perfect hash over such k-mers cannot be built" % (
+                             kty, len(bits), rank, len(used), "A" * K, letters(d)), witness={"kind": "hash-kernel", "a": "A" * K, "b": letters(d)})
+        guarded(rep, rule, okey, "hash", f)
